@@ -190,8 +190,11 @@ pub fn get_solidity_version_from_source_unit(source_unit: SourceUnit) -> Option<
                 continue;
             }
 
+            //The parser hands over the raw text of the pragma, comments included
+            let solidity_version_str = strip_comments(&solidity_version_literal.string);
+
             let minor_major_patch_version =
-                get_solidity_major_minor_patch_version(&solidity_version_literal.string)
+                get_solidity_major_minor_patch_version(&solidity_version_str)
                     .iter()
                     .filter_map(|f| f.parse::<i32>().ok())
                     .collect::<Vec<i32>>();
@@ -220,6 +223,12 @@ pub fn get_solidity_minor_version(solidity_version_str: &str) -> i32 {
     let major_minor_patch_vec = get_solidity_major_minor_patch_version(solidity_version_str);
     major_minor_patch_vec[1].parse::<i32>().unwrap()
 }
+//Removes block and line comments from the raw text of a pragma value
+pub fn strip_comments(text: &str) -> String {
+    let comment_re = Regex::new(r"(?s)/\*.*?\*/|//[^\r\n]*").unwrap();
+    comment_re.replace_all(text, " ").into_owned()
+}
+
 pub fn get_solidity_patch_version(solidity_version_str: &str) -> i32 {
     let major_minor_patch_vec = get_solidity_major_minor_patch_version(solidity_version_str);
     major_minor_patch_vec[2].parse::<i32>().unwrap()
